@@ -820,6 +820,7 @@ def _dump_lexical_entry(
     elem.extend([_build_sense(sense, version)
                  for sense in entry.get('senses', [])])
     elem.extend(frames)
+    _preserve_space(elem, version)
     print(_tostring(elem, 2), file=out)
 
 
@@ -955,6 +956,7 @@ def _dump_synset(
     elem.extend([_build_relation(rel, 'SynsetRelation')
                  for rel in synset.get('relations', [])])
     elem.extend([_build_example(ex) for ex in synset.get('examples', [])])
+    _preserve_space(elem, version)
     print(_tostring(elem, 2), file=out)
 
 
@@ -1001,6 +1003,16 @@ def _build_syntactic_behaviour(
     elif version < (1, 1) and syntactic_behaviour.get('senses'):
         attrib['senses'] = ' '.join(syntactic_behaviour['senses'])
     return ET.Element('SyntacticBehaviour', attrib=attrib)
+
+
+def _preserve_space(elem: ET.Element, version: VersionInfo) -> None:
+    # WN-LMF 1.3 allows xml:space on nodes with text content; without
+    # it load() normalizes whitespace, so mark text that would change
+    if version >= (1, 3):
+        for node in elem.iter():
+            text = node.text
+            if len(node) == 0 and text and text != ' '.join(text.split()):
+                node.set('xml:space', 'preserve')
 
 
 def _tostring(
